@@ -25,7 +25,7 @@ RULE = ('inputs: token lists of corpus-like generated programs with a line comme
 ASSUMPTIONS = ['not every source comment has to be captured (documented limitation): dropped comments are counted, not '
                'flagged; where a comment is re-emitted is free as long as the re-parse agrees',
                'the "ES5 parser reads the output as the same tree" clause uses refjs on inputs refjs reads as the same tree']
-BUDGET_S = {'quick': 70, 'thorough': 900}
+BUDGET_S = {'quick': 100, 'thorough': 900}
 REQUIRED_HITS = ['parse_pair', 'comment_audited', 'pretty_roundtrip', 'keyword_property_comments']
 FLOOR = {'quick': 1500, 'thorough': 20000}
 
